@@ -48,6 +48,7 @@ type GhostField struct {
 	Owner string // type name as written
 	Name  string
 	Type  string
+	Pkg   string // package whose contract file declares it (type names resolve relative to it)
 }
 
 type FuncContract struct {
@@ -468,7 +469,7 @@ func (cs *Contracts) LoadContractFile(path, pkgPath string) error {
 			if !strings.HasPrefix(fs[1], "(") || i < 0 {
 				return fail(l.line, "ghost field: bad owner")
 			}
-			cs.Ghosts = append(cs.Ghosts, GhostField{Owner: fs[1][1:i], Name: fs[1][i+2:], Type: fs[2]})
+			cs.Ghosts = append(cs.Ghosts, GhostField{Owner: fs[1][1:i], Name: fs[1][i+2:], Type: fs[2], Pkg: pkgPath})
 		case "recv":
 			// recv field (T).ch ensures expr
 			fs := strings.SplitN(rest, " ", 4)
